@@ -115,6 +115,14 @@ def _build_meta(d: Defn):
         # (abstract) strict base, declared without the keyword
         base = StateMachineMetaclass("StrictBase", (StateMachine,), {}, strict_states=True)
         return StateMachineMetaclass("M", (base,), ns)
+    if d.strict and zlib.crc32(repr((d.states, d.events, "sub")).encode()) % 8 == 2:
+        # a strict subclass that adds nothing to a concrete, lenient base class: the definition is validated again,
+        # under the subclass's own strictness
+        import warnings as _w
+        with _w.catch_warnings():
+            _w.simplefilter("ignore")
+            base = StateMachineMetaclass("LenientBase", (StateMachine,), ns)
+        return StateMachineMetaclass("M", (base,), {}, strict_states=True)
     return StateMachineMetaclass("M", (StateMachine,), ns, strict_states=d.strict)
 
 
